@@ -1002,3 +1002,85 @@ def s18e_source_redispatch(ctx):
                         bj['def'], V, acc[0], ' through an arm that covers %d kinds' % len(ks) if len(ks) > 1 else '', T[V]), bj['file'], bj['line'])
     r.info['hand-written dispatches'] = n
     return r
+
+
+def s18f_true_range_nan_taint(ctx):
+    """C18: "every previous close" includes NaN, where max(high-low, |high-pc|, |low-pc|) is high - low (the NaN-ignoring maximum).
+    NaN-taint analysis of OHLCV::tr_close on every path that a NaN previous close takes (every ordered float comparison with the
+    previous close as an operand is false, `!=` is true): the returned value must not be NaN-tainted. A value is tainted when it is
+    the previous close, an arithmetic result with a tainted operand, or a f64::max / f64::min of two tainted values (max / min of a
+    tainted and an untainted value is the untainted one)."""
+    from paths import enumerate_paths
+    from symexec import PathSym
+    f = ctx.facts('default')
+    m = Model(f)
+    r = RuleResult('S18f', 'OHLCV::tr_close with a NaN previous close returns a value that is not NaN-tainted (the selection ignores the NaN, as f64::max / min do)')
+    ohlcv = f.traits[T_OHLCV]
+    tp = [it['path'] for it in ohlcv['items'] if it['name'] == 'tr_close']
+    if not tp:
+        raise Broken('OHLCV::tr_close not found')
+    b = m.body_inlined(tp[0], prefer_mono=False)
+    if b is None or b.arg_count != 2:
+        raise Broken('OHLCV::tr_close: unexpected signature')
+
+    def strip(t):
+        while isinstance(t, tuple) and t and t[0] in ('ref', 'deref'):
+            t = t[1]
+        return t
+
+    def is_pc(t):
+        t = strip(t)
+        return isinstance(t, tuple) and t and t[0] == 'arg' and t[1] == 2
+
+    def tainted(t, depth=0):
+        t = strip(t)
+        if not isinstance(t, tuple) or not t or depth > 40:
+            return False
+        if is_pc(t):
+            return True
+        if t[0] == 'call':
+            name = t[4].rsplit('::', 1)[-1]
+            args = t[2]
+            if name in ('max', 'min') and '<impl f' in t[4] and len(args) == 2:
+                return tainted(args[0], depth + 1) and tainted(args[1], depth + 1)
+            if name in ('maximum', 'minimum'):
+                return any(tainted(a, depth + 1) for a in args)
+            if name == 'is_nan':
+                return False
+            return any(tainted(a, depth + 1) for a in args)
+        if t[0] in ('bin',):
+            return tainted(t[2], depth + 1) or tainted(t[3], depth + 1)
+        if t[0] == 'un':
+            return tainted(t[2], depth + 1)
+        if t[0] == 'cast':
+            return tainted(t[2], depth + 1)
+        return False
+
+    n = 0
+    for p in enumerate_paths(b, limit=4000):
+        ps = PathSym(b, p)
+        if not ps.returns or ps.infeasible:
+            continue
+        # is this a path a NaN previous close can take?
+        feasible = True
+        for d, vals in ps.decisions:
+            dd = strip(d)
+            truth = not (vals != 'otherwise' and 0 in vals)
+            if isinstance(dd, tuple) and dd and dd[0] == 'bin' and dd[1] in ('Lt', 'Le', 'Gt', 'Ge', 'Eq', 'Ne') and (tainted(dd[2]) or tainted(dd[3])):
+                want = (dd[1] == 'Ne')
+                if truth != want:
+                    feasible = False
+            elif isinstance(dd, tuple) and dd and dd[0] == 'call' and dd[4].endswith('::is_nan') and dd[2] and tainted(dd[2][0]):
+                if not truth:
+                    feasible = False
+        if not feasible:
+            continue
+        n += 1
+        r.inst('tr_close|nan-path|%d' % n)
+        if ps.ret is not None and tainted(ps.ret):
+            r.violate('OHLCV::tr_close|nan-previous-close|tainted', 'with a NaN previous close OHLCV::tr_close returns %s, which is NaN: the selection between the '
+                      'candle\'s own price and the previous close does not ignore the NaN (f64::max / f64::min do; `if a > b {a} else {b}` does not)' % tree_str(ps.ret)[:90],
+                      b.file, b.line)
+            break
+    r.floor('paths a NaN previous close can take', 1, n)
+    return r
